@@ -1,5 +1,6 @@
 import SignaloModel.Proofs.PeekProofs
 import SignaloModel.Proofs.SourcesTree
+import SignaloModel.Proofs.PeekRaw
 /-!
 # C10 — Source adapters yield exactly what their iterator analogues yield
 
@@ -8,6 +9,7 @@ The property theorems for C10: `#check` prints each statement, `#print axioms` i
 -/
 open SignaloModel
 
+#check @Sources.peek_raw_correct
 #check @Sources.peek_correct
 #check @Sources.runPeek_correct
 #check @Sources.tree_correct
@@ -31,6 +33,7 @@ open SignaloModel
 #check @Sources.peek_idem
 #check @Sources.peek_pull_plain
 
+#print axioms Sources.peek_raw_correct
 #print axioms Sources.peek_correct
 #print axioms Sources.runPeek_correct
 #print axioms Sources.tree_correct
